@@ -203,6 +203,8 @@ func VerifQueueMain(in *bufio.Reader, out *bufio.Writer) {
 		switch fields[1] {
 		case "L", "C", "M":
 			verifQueueCase(fields, out)
+		case "G":
+			verifLongWaitCase(fields, out)
 		default:
 			verifKeyQueueCase(fields, out)
 		}
